@@ -161,9 +161,39 @@ def _worker_init(mem_gib):
     logging.disable(logging.CRITICAL)
 
 
+class _FormatAndDrop(__import__("logging").Handler):
+    """Formats every record (so that lazily formatted arguments are evaluated, as a real handler would) and drops it."""
+    def emit(self, record):
+        try:
+            record.getMessage()
+        except Exception:  # noqa: BLE001 - a real StreamHandler reports formatting errors on stderr and carries on
+            pass
+
+
+_LOG_HANDLER = _FormatAndDrop()
+
+
+def logging_mode(live: bool):
+    """live=False: logging disabled altogether (the library's log calls are dead).  live=True: the library's loggers are enabled down to
+    DEBUG with a handler attached, as under `spp -v` or an application that configured logging.  The properties do not depend on the
+    logging configuration, so partitions alternate between the two."""
+    import logging
+    lg = logging.getLogger("space_packet_parser")
+    if live:
+        logging.disable(logging.NOTSET)
+        lg.setLevel(logging.DEBUG)
+        lg.propagate = False
+        if _LOG_HANDLER not in lg.handlers:
+            lg.addHandler(_LOG_HANDLER)
+    else:
+        logging.disable(logging.CRITICAL)
+
+
 def _run_task(payload):
     func, task = payload
     try:
+        import zlib
+        logging_mode(bool(zlib.crc32(repr(task).encode()) & 1))
         t = func(task)
         if not isinstance(t, Tally):
             raise TypeError(f"task function returned {type(t)}")
